@@ -159,6 +159,11 @@ class Attempt:
         self.transport = None
 
     def _cancel(self, d):
+        if self.net.win_on_cancel and self.state == "pending":
+            # the connection wins the race with the cancellation: the endpoint delivers it from inside cancel()
+            self.net.on_attempt_cancelled(self)
+            self.accept()
+            return
         self.state = "cancelled"
         self.net.on_attempt_cancelled(self)
 
@@ -198,6 +203,8 @@ class SimNet:
         self.transports = []
         self.log = []           # low-level notifications since the last `drain_log`
         self.closed = False
+        self.sync_next = 0      # the next attempt completes inside connect(): 1 accepted, 2 refused
+        self.win_on_cancel = False
 
     def endpoint_factory(self, reactor, host, port):
         return SimEndpoint(self, host, port)
@@ -206,6 +213,12 @@ class SimNet:
         a = Attempt(self, len(self.attempts) + 1, host, port, factory)
         self.attempts.append(a)
         self.log.append(("connect", a.serial, host, port))
+        if self.sync_next:
+            mode, self.sync_next = self.sync_next, 0
+            if mode == 1:
+                a.accept()
+            else:
+                a.refuse()
         return a
 
     def pending_attempts(self):
